@@ -6,6 +6,9 @@ from .. import gen, core
 
 ID = "C18"
 LEAN_TARGETS = ["Cider.Props.C18"]
+# source-text tie (translated on every run by tools/pyexpr2lean.py); skipped when the function no longer fits the translator
+OPTIONAL_TARGETS = ["Cider.Props.C18Src"]
+OPTIONAL_THEOREMS = {"Cider.Props.C18Src": ['Cider.C18Src.insideRelevant_eq']}
 P = "Cider.C18."
 THEOREMS = [P + t for t in (
     "never_moves_outside", "stays_inside", "accept_rule", "counted_step_update", "H_sum", "flat_rule", "flat_only_at_schedule",
